@@ -10,15 +10,16 @@ EXPLANATION = (
     "the frame was still current. X2: _do_cleanups evaluated on three registered cleanups, each forking into 'returns' "
     "and 'raises' (8 fault combinations) x fail_on_cleanup_errors: every cleanup runs exactly once in reverse "
     "registration order; the first error is re-raised iff the flag is set. X3: add_cleanup(f,'a'); add_cleanup(f,'b') "
-    "registers two cleanups in the current or the named layer. X4: push, pop and all current-frame accesses use the same "
-    "end of the frame stack; lookups scan all frames, deletion only the current one. X5: Scenario.run and "
+    "registers two cleanups in the current or the named layer. X4: lookups scan all frames from the current one outward, deletion only the current one. X13: every history of "
+    "push / pop / set / get / delete / contains up to length 4 (thorough: 5), from a new Context made by its own __init__ and from one "
+    "whose outer value is shadowed, evaluated step by step on constants and compared with a stack of dictionaries. X5: Scenario.run and "
     "ScenarioContainer.run (Feature, Rule): one push, exactly one pop on every non-BaseException path; a raising pop "
     "gives error status and a failed result. X8: run_model runs the test-run level cleanups after after_all and a "
     "failure makes the run fail. X6: a generator fixture registers its cleanup before the setup part runs. X7: "
     "execute_steps evaluated with sub-steps that overwrite text/table and pass or fail: the caller's values - also None "
     "- are restored on every exit. X9: the mode/layer context managers restore in finally. X10: use_or_assign_param / "
     "use_or_create_param keep an existing attribute, also one whose value is None. " + T.SOUNDNESS)
-NOT_DECIDED = ("arbitrary operation histories on a live Context with concrete values (masking warnings, records); "
+NOT_DECIDED = ("operation histories longer than the bound, with several attribute names, or mixing user/behave mode (the masking warnings); "
                "fixture composition helpers beyond the registration order")
 TECHNIQUE = "static analysis: abstract evaluation of Context methods on a frame-stack heap model with fault forks (cleanup order/exactly-once obligations), scope typestate monitors over the run methods, structural end-of-stack and finally rules"
 
@@ -32,10 +33,11 @@ def t_ctx(chk, ix):
     rules_context.check_use_or_param(chk, ix)
     rules_context.check_root_frame_is_own(chk, ix)
     rules_context.check_fresh_context_per_run(chk, ix)
+    rules_context.check_scope_histories(chk, ix)
 
 
 def run(chk, ix, tier):
     run_parallel(chk, [(t_ctx, ()), (T.t_scenario, (("X5",),)), (T.t_run_model, (("X8",),))]
                  + [(T.t_container, (("X5",), (w,))) for w in ("Feature", "Rule")])
-    for r, n in (("X1", 2), ("X2", 2), ("X3", 2), ("X4", 4), ("X5", 3), ("X6", 1), ("X7", 2), ("X8", 1), ("X9", 2), ("X10", 6), ("X11", 1), ("X12", 2)):
+    for r, n in (("X1", 2), ("X2", 2), ("X3", 2), ("X4", 4), ("X5", 3), ("X6", 1), ("X7", 2), ("X8", 1), ("X9", 2), ("X10", 6), ("X11", 1), ("X12", 2), ("X13", 100)):
         chk.require_instances(r, n)
